@@ -90,7 +90,7 @@ def extract(unit, cfg, auto=None, nohint=None):
     return out, log, ' '.join(cmd), dt
 
 
-def verus_once(path, rlimit=None, seed=None, extra=None, timeout=900):
+def verus_once(path, rlimit=None, seed=None, extra=None, timeout=300):
     cmd = ['verus', path, '--output-json', '--time', '--multiple-errors', '50', '--error-format=json']
     if rlimit:
         cmd += ['--rlimit', str(rlimit)]
@@ -320,7 +320,7 @@ def run_unit(unit, cfg, tier='quick', seed=0):
     if (failures or rl) and not undecided:
         # retry protocol (DESIGN 4.2): an obligation is reported only if it fails in every configuration
         persistent = {obligation_id(f): f for f in failures}
-        for (rlim, sd) in ((80, 1), (80, 2)):
+        for (rlim, sd) in ((40, 1), (40, 2)):
             r2 = verus_once(out, rlimit=rlim, seed=sd)
             res['cmds'].append(r2['cmd'])
             attempts += 1
